@@ -128,6 +128,17 @@ def check08(ctx):
         return "%s node=%s name=%s" % (e["ns"][:60], e["node"], e["name"]), dict(event=e, validate_with="specs/TraceC08.tla"), "".join(lines[:upto])
 
     rc, nnew = report_violations(ctx, viols, start, by_id, describe)
+    # the consequence for whole versions (one root name, one contents) is judged on the same histories by TraceMast.tla
+    mfiles, mchunks, mstart, mreports = validate_parallel(ctx, "TraceMast.tla", "TraceMast.cfg", trace, 4 if quick else 12)
+    mviols = []
+    for f, rep in zip(mfiles, mreports):
+        for v in rep["viol"]:
+            v["file"] = f
+            mviols.append(v)
+    mby = {json.loads(c[0])["cfg"]["id"]: c for c in mchunks}
+    rc2, nnew2 = report_violations(ctx, mviols, mstart, mby, lambda lines, upto, v: (
+        "history #%d, %d events" % (v["tr"], upto), dict(validate_with="specs/TraceMast.tla"), "".join(lines[:upto])), quiet_unexercised=True)
+    rc, nnew = max(rc, rc2), nnew + nnew2
     cov = dict(states=stat.get("events", 0) + 1, transitions=stat.get("events", 0), traces_validated_against_impl=len(chunks),
                samples=[json.loads(chunks[0][0])], exercised=stat, exhaustive=False,
                rule="every Persist.Store call of every driven history (1500/30000 random histories with clones, reloads, caches, both formats, 6 key types), "
